@@ -25,6 +25,8 @@ structure LS where
   heap : Nat → LV := fun _ => {}
   size : Nat := 0
   slots : List (Slot × Nat) := []   -- what each attribute currently holds (most recent first)
+  /-- attributes that hold an `ExplainableObjectDict` (attribute number ≥ 100): key ↦ value -/
+  dicts : List (Slot × List (Nat × Nat)) := []
 deriving Inhabited
 
 inductive LErr
@@ -32,6 +34,8 @@ inductive LErr
   | otherContainer    -- already linked to another modeling object
   | notAttached       -- replace on a value that is not linked
   | badRef            -- (driver only) reference to a value that does not exist
+  | keyError          -- replace on a dict-held value that its dict does not hold any more
+  | multipleKeys      -- … or holds under several keys
 deriving Repr, DecidableEq, Inhabited
 
 abbrev LM := Except LErr
@@ -125,6 +129,55 @@ def replace (s : LS) (old new : Nat) : LM LS :=
     | .error e => .error e
     | .ok sB => setContainer sB new (some sl)
 
+/-! ### values held in an `ExplainableObjectDict` (all entries of one dict share the id of the dict's slot) -/
+
+def isDictSlot (sl : Slot) : Bool := sl.2 ≥ 100
+
+def LS.entries (s : LS) (sl : Slot) : List (Nat × Nat) :=
+  match s.dicts.find? (fun p => p.1 == sl) with
+  | some p => p.2
+  | none => []
+
+def LS.setEntry (s : LS) (sl : Slot) (key v : Nat) : LS :=
+  let es := (s.entries sl).filter (fun p => p.1 != key) ++ [(key, v)]
+  { s with dicts := (sl, es) :: s.dicts.filter (fun p => p.1 != sl) }
+
+/-- `ExplainableObjectDict.__setitem__`: the entry is stored, the value is linked (a value previously
+stored under the key is **not** unlinked) -/
+def dictSet (s : LS) (sl : Slot) (key v : Nat) : LM LS :=
+  setContainer (s.setEntry sl key v) v (some sl)
+
+/-- `replace_in_mod_obj_container_without_recomputation` for a value held in a dict:
+`dict[key] = new` (which links `new` while `old` is still linked), then `old` is unlinked, then
+`new` is linked again -/
+def replaceInDict (s : LS) (old new : Nat) : LM LS :=
+  match (s.get old).cont with
+  | none => .error .notAttached
+  | some sl =>
+    if ((s.entries sl).filter (fun p => p.2 == old)).length > 1 then .error .multipleKeys else
+    match (s.entries sl).find? (fun p => p.2 == old) with
+    | none => .error .keyError
+    | some (key, _) =>
+      match dictSet s sl key new with
+      | .error e => .error e
+      | .ok s1 =>
+        match setContainer s1 old none with
+        | .error e => .error e
+        | .ok s2 => setContainer s2 new (some sl)
+
+/-- the same without the final re-linking (what an "already linked, nothing to do" shortcut in
+`set_modeling_obj_container` amounts to: seeded change C05-a) -/
+def replaceInDictNoRelink (s : LS) (old new : Nat) : LM LS :=
+  match (s.get old).cont with
+  | none => .error .notAttached
+  | some sl =>
+    match (s.entries sl).find? (fun p => p.2 == old) with
+    | none => .error .keyError
+    | some (key, _) =>
+      match dictSet s sl key new with
+      | .error e => .error e
+      | .ok s1 => setContainer s1 old none
+
 /-- the same with the two last lines swapped (seeded change C08-a) -/
 def replaceAttachFirst (s : LS) (old new : Nat) : LM LS :=
   match (s.get old).cont with
@@ -139,15 +192,27 @@ inductive Op
   | setAttr (sl : Slot) (v : Nat)
   | replace (old new : Nat)
   | detach (v : Nat)
+  | dictSet (sl : Slot) (key v : Nat)
 deriving Repr
 
 def step (s : LS) : Op → LM LS
   | .mk ps => if ps.all (· < s.size) then .ok (mk s ps).1 else .error .badRef
-  | .setAttr sl v => if v < s.size then setAttr s sl v else .error .badRef
-  | .replace o n => if o < s.size ∧ n < s.size then replace s o n else .error .badRef
+  | .setAttr sl v => if v < s.size ∧ isDictSlot sl = false then setAttr s sl v else .error .badRef
+  | .replace o n =>
+    if o < s.size ∧ n < s.size then
+      (match (s.get o).cont with
+       | some sl => if isDictSlot sl then replaceInDict s o n else replace s o n
+       | none => replace s o n)
+    else .error .badRef
+  | .dictSet sl key v => if v < s.size ∧ isDictSlot sl then dictSet s sl key v else .error .badRef
   | .detach v => if v < s.size then setContainer s v none else .error .badRef
 
 def run (ops : List Op) : LM LS := ops.foldlM step {}
+
+/-- operations that do not involve values held in dicts -/
+def Op.isPlain : Op → Bool
+  | .dictSet _ _ _ => false
+  | _ => true
 
 /-! ## the invariant, as an executable test -/
 
